@@ -1,5 +1,5 @@
 // auto-generated: "lalrpop 0.23.1"
-// sha3: faf5d0318f11b980584d6d8c978182ee7adef255f2ec33e324961e64da428102
+// sha3: ef96d07f8daa07de632367a7c3a400b71048f7027820a14a0e08481ceb29409f
 #[allow(unused_extern_crates)]
 extern crate lalrpop_util as __lalrpop_util;
 #[allow(unused_imports)]
@@ -641,7 +641,7 @@ fn __action1<
     (_, __0, _): (usize, &'input str, usize),
 ) -> String
 {
-    { let (x, y) = (r##""##.to_string(), "([}({".to_string()); x + &y }
+    { fn f<'a>(x: &'a str) -> &'a str { x } f("q").to_string() }
 }
 
 #[allow(unused_variables)]
@@ -653,7 +653,7 @@ fn __action2<
     (_, __0, _): (usize, &'input str, usize),
 ) -> String
 {
-    "\"".to_string()
+    '}'.to_string()
 }
 
 #[allow(unused_variables)]
@@ -665,7 +665,7 @@ fn __action3<
     (_, __0, _): (usize, &'input str, usize),
 ) -> String
 {
-    { fn f<'a>(x: &'a str) -> &'a str { x } f("q").to_string() }
+    r"{}aa(".to_string()
 }
 
 #[allow(unused_variables)]
@@ -677,7 +677,7 @@ fn __action4<
     (_, __0, _): (usize, &'input str, usize),
 ) -> String
 {
-    ")};}*/\"".to_string()
+    r#"#"z"#.to_string()
 }
 
 #[allow(unused_variables)]
@@ -689,7 +689,7 @@ fn __action5<
     (_, __0, _): (usize, &'input str, usize),
 ) -> String
 {
-    "é;;(".to_string()
+    r#""#.to_string()
 }
 
 #[allow(unused_variables)]
@@ -701,7 +701,7 @@ fn __action6<
     (_, __0, _): (usize, &'input str, usize),
 ) -> String
 {
-    ",,éé".to_string()
+    "}[}(\u{7d}".to_string()
 }
 
 #[allow(unused_variables)]
@@ -713,7 +713,7 @@ fn __action7<
     (_, __0, _): (usize, &'input str, usize),
 ) -> String
 {
-    r#"/*"{'"#.to_string()
+    r##"(}/*"##.to_string()
 }
 
 #[allow(unused_variables)]
@@ -725,7 +725,7 @@ fn __action8<
     (_, __0, _): (usize, &'input str, usize),
 ) -> String
 {
-    { let r#type = [1, 2, 3]; r#type[(0 + 1)].to_string() }
+    format!("{}{}", '\u{7d}'.to_string(), r###"},"###.to_string())
 }
 
 #[allow(clippy::type_complexity, dead_code)]
